@@ -1283,8 +1283,8 @@ class BinaryMappingVariables(BaseVariableGroup):
         >>> print(*f(2,None))
         4 5 6
         """
-        if (m < 1 or n < 1):
-            raise ValueError("n and m must be positive")
+        if (m < 1 or n < 0):
+            raise ValueError("n must be non negative and m must be positive")
         self.domain_size = n
         self.range_size = m
         self.id_offset = formula.number_of_variables()
